@@ -290,7 +290,7 @@ def parse_mir(text):
                     name=m.group(1); params=m.group(2); ret=m.group(3)
                 f=Fn(name, [p for p in split_top(params)] if params else [], ret)
             else:
-                m=re.match(r'(?:const|static(?: mut)?) (.*?): (.*) = \{$', L)
+                m=re.match(r'(?:const|static(?: mut)?) (.*?promoted\[\d+\]): (.*) = \{$', L) or re.match(r'(?:const|static(?: mut)?) (.*?): (?!\d)(.*) = \{$', L)
                 f=Fn(m.group(1), [], m.group(2))
             i+=1; cur=None
             while not lines[i].startswith('}'):
